@@ -2,6 +2,7 @@ package main
 
 import (
 	"context"
+	"encoding/json"
 	"fmt"
 	"go/constant"
 	"go/token"
@@ -57,9 +58,10 @@ type closureInfo struct {
 
 // Verifier verifies one function against its contract.
 type Verifier struct {
-	rangeName      map[ssa.Value]string // per map range instruction: name of its ghost set of produced keys
-	exitChecked    map[int]bool         // loops whose exit clauses were emitted on at least one path
-	rangeEntryHas  map[ssa.Value]string // per map range: presence array of the map when the range started
+	phiAlias       map[*ssa.Phi][]string // recorded source names of loop variables that have been renamed since the baseline
+	rangeName      map[ssa.Value]string  // per map range instruction: name of its ghost set of produced keys
+	exitChecked    map[int]bool          // loops whose exit clauses were emitted on at least one path
+	rangeEntryHas  map[ssa.Value]string  // per map range: presence array of the map when the range started
 	prog           *Program
 	fn             *ssa.Function
 	key            string
@@ -223,6 +225,7 @@ func (v *Verifier) analyse() {
 			}
 		}
 	}
+	v.applyRecordedNames()
 	// ordinals for implicit sites, per kind, in source order
 	type site struct {
 		in   ssa.Instruction
@@ -1011,6 +1014,9 @@ func (v *Verifier) loopVars(li *loopInfo, st *State, phis []*ssa.Phi, vals []Val
 	for i, ph := range phis {
 		if ph.Comment != "" {
 			vars[ph.Comment] = vals[i]
+		}
+		for _, n := range v.phiAlias[ph] {
+			vars[n] = vals[i]
 		}
 		vars[fmt.Sprintf("phi%d", i)] = vals[i]
 	}
@@ -2635,4 +2641,126 @@ func sortedNames2(m map[string]string) []string {
 	}
 	sort.Strings(out)
 	return out
+}
+
+// ---- names of locals recorded with the baseline ----
+//
+// Contracts name loop variables and other locals by their source names. A rename of a local is a harmless edit; so that it
+// does not unbind a contract, the baseline records for every function which SSA value (register name and type) each source
+// name stood for. When a name a contract may use has disappeared from the function, and the recorded SSA value of that type is
+// still there, the old name is kept as an alias of that value (the obligations themselves are generated and proved as always).
+
+type recName struct {
+	SSA  string `json:"ssa"`
+	Type string `json:"type"`
+	Kind string `json:"kind"` // "val", "phi", "alloc"
+}
+
+var recordedNames map[string]map[string][]recName
+var recordedNamesLoaded bool
+
+func namesFile() string { return filepath.Join(verifDir, "baseline", "names.json") }
+
+func loadRecordedNames() {
+	if recordedNamesLoaded {
+		return
+	}
+	recordedNamesLoaded = true
+	recordedNames = map[string]map[string][]recName{}
+	b, err := os.ReadFile(namesFile())
+	if err == nil {
+		json.Unmarshal(b, &recordedNames)
+	}
+}
+
+// currentNames lists, per source name, the SSA values that carry it in this function.
+func (v *Verifier) currentNames() map[string][]recName {
+	out := map[string][]recName{}
+	add := func(n string, r recName) {
+		for _, x := range out[n] {
+			if x == r {
+				return
+			}
+		}
+		out[n] = append(out[n], r)
+	}
+	for val, names := range v.dbg {
+		for _, n := range names {
+			add(n, recName{SSA: val.Name(), Type: val.Type().String(), Kind: "val"})
+		}
+	}
+	for _, b := range v.fn.Blocks {
+		for _, in := range b.Instrs {
+			if ph, ok := in.(*ssa.Phi); ok && ph.Comment != "" {
+				add(ph.Comment, recName{SSA: ph.Name(), Type: ph.Type().String(), Kind: "phi"})
+			}
+		}
+	}
+	for n, a := range v.addrNames {
+		add(n, recName{SSA: a.Name(), Type: a.Type().String(), Kind: "alloc"})
+	}
+	for n := range out {
+		sort.Slice(out[n], func(i, j int) bool { return out[n][i].SSA < out[n][j].SSA })
+	}
+	return out
+}
+
+func (v *Verifier) applyRecordedNames() {
+	loadRecordedNames()
+	rec := recordedNames[v.key]
+	if len(rec) == 0 {
+		return
+	}
+	cur := v.currentNames()
+	byName := map[string]ssa.Value{}
+	for _, b := range v.fn.Blocks {
+		for _, in := range b.Instrs {
+			if val, ok := in.(ssa.Value); ok {
+				byName[val.Name()] = val
+			}
+		}
+	}
+	for _, p := range v.fn.Params {
+		byName[p.Name()] = p
+	}
+	var names []string
+	for n := range rec {
+		names = append(names, n)
+	}
+	sort.Strings(names)
+	for _, n := range names {
+		if _, still := cur[n]; still {
+			continue
+		}
+		bound := false
+		for _, r := range rec[n] {
+			val := byName[r.SSA]
+			if val == nil || val.Type().String() != r.Type {
+				continue
+			}
+			switch r.Kind {
+			case "phi":
+				if ph, ok := val.(*ssa.Phi); ok {
+					if v.phiAlias == nil {
+						v.phiAlias = map[*ssa.Phi][]string{}
+					}
+					v.phiAlias[ph] = append(v.phiAlias[ph], n)
+					bound = true
+				}
+			case "alloc":
+				if a, ok := val.(*ssa.Alloc); ok {
+					if _, taken := v.addrNames[n]; !taken {
+						v.addrNames[n] = a
+						bound = true
+					}
+				}
+			default:
+				v.dbg[val] = append(v.dbg[val], n)
+				bound = true
+			}
+		}
+		if bound {
+			v.notes = append(v.notes, "local "+n+" no longer exists under that name; the contract's name is kept for the same SSA value (recorded with the baseline)")
+		}
+	}
 }
